@@ -382,8 +382,21 @@ func (s *Sys) Apply(op string) (string, error) {
 			}
 		}
 	}
-	// C13: notifications == exactly the state-changing ops, once, in order
+	// C13: notifications == exactly the state-changing ops, once, in order. The sentinel
+	// orders remote deliveries only; a host-led write reaches the observers on its own path,
+	// so an observer that is still short of the expected notifications is given time.
 	check := func(name string, o *observer, want []note) error {
+		deadline := time.Now().Add(60 * time.Second)
+		for {
+			o.mu.Lock()
+			n := len(strip(o.notes))
+			o.mu.Unlock()
+			if n >= len(want) || time.Now().After(deadline) {
+				break
+			}
+			time.Sleep(time.Millisecond)
+			vk.Beat()
+		}
 		got := strip(o.take())
 		if fmt.Sprint(got) == fmt.Sprint(want) {
 			return nil
